@@ -458,6 +458,9 @@ def parse_all(relpath, repo=None, ext=False):
             m.protos.setdefault(k, v)
         m.records.update(t.records)
         m.vars.update(t.vars)
+    for f in m.functions.values():
+        for n in f.walk():
+            n.tu = m
     _ALL[key] = m
     return m
 
